@@ -297,6 +297,7 @@ MANIFEST = {
             "limited velocity (zero of T - TMax of the real closure), or their documented "
             "sentinels exactly under the conditions stated, and set the phase-trace flags iff a "
             "root exists and the range end is not a true end; findMatching dispatches by the side "
-            "of vJ. v-^2 = min(vw^2, cs-^2), T+=Tn, v+=vw for detonations are proven in C02.",
+            "of vJ; v-^2 = min(vw^2, cs-^2(T-)) with the sound speed at the returned T- (deflagration / "
+            "hybrid classification; harness shared with C02). T+=Tn, v+=vw for detonations are proven in C02.",
     "note": "Ordering/causality facts that need EOS convexity are not decided (outside).",
 }
